@@ -49,6 +49,7 @@ RtTags(e) ==
    LET k == e.k  v == e.v  fits == FitsV(k, v)  valid == fits /\ Valid(k, v) IN
    Tags({ << e.panic, "C02" >>,
           << e.ok /\ fits /\ e.b # Enc(k, v), "C01" >>,
+          << e.ok /\ ~fits, "C01" >>,                        \* bytes were produced for a value that has no RFC layout (a length field cannot hold it)
           << e.ok /\ ~(fits /\ valid), "C02" >>,
           << e.ok /\ ~e.ok2, "C02" >>,
           << e.ok /\ e.ok2 /\ fits /\ valid /\ e.v2 # AsDecoded(k, v), "C02" >> })
